@@ -287,6 +287,8 @@ func (app *App) addPrefixToRoute(prefix string, route *Route) *Route {
 	route.Path = prefixedPath
 	route.path = RemoveEscapeChar(prettyPath)
 	route.routeParser = parseRoute(prettyPath, app.customConstraints...)
+	// The prefix may carry parameters of its own: the names are those of the whole path
+	route.Params = parseRoute(prefixedPath, app.customConstraints...).params
 	route.root = false
 	route.star = false
 
